@@ -231,7 +231,7 @@ def build(repo, udp=False):
     u.after(TBI, r'let fix = delta - (\w+);', '                    proof { lemma_split16(fix); }')
     u.after(TBI, r'let fix = [^;]*value\.len\(\)[^;]*;',
             '                    proof { lemma_split16(fix); }')
-    u.after(TBI, r'options_delta_length \+= delta;', '''                proof {
+    u.at_block_end(TBI, r'for value in it2:', '''                proof {
                     assert(header@ =~= opt_hdr(delta as int, value@.len() as int));
                     lemma_wire_push(cur, (*number, value@));
                     let vv = vals_view(*value_list);
@@ -257,7 +257,7 @@ def build(repo, udp=False):
                         }
                     }''')
     # after the inner loop (end of the outer body): acc == flat_map(view, number + 1)
-    u.after(TBI, r'options_bytes\s*\.set_len|raw_copy2_set_len\(&mut options_bytes[^;]*;\s*\}\s*\}', '''            proof {
+    u.at_block_end(TBI, r'for \(number, value_list\) in it:', '''            proof {
                 let vv = vals_view(*value_list);
                 assert(vv.take(vv.len() as int) =~= vv);
                 reveal(opts_view);
